@@ -95,6 +95,8 @@ func failingOps() []Step {
 		{Op: "check.cas", Node: "n1", Checks: []Check{{ID: "serfHealth", Status: "passing"}}, Idx: "stale"},
 		{Op: "check.delete-cas", Node: "n1", Checks: []Check{{ID: "serfHealth"}}, Idx: "stale"},
 		{Op: "kv.lock", Key: "verif/guard", Sess: SessionUUID(998)},
+		// deleting a session is a checked verb: a session that does not exist fails the transaction
+		{Op: "session.delete", Sess: SessionUUID(997)},
 	}
 }
 
